@@ -689,7 +689,12 @@ func (s *state) loopHeader(b, pred *ssa.BasicBlock) bool {
 			}
 			s.vals[p] = nv
 		}
+		oldHeaps := map[string]string{}
+		for k, v := range s.heaps {
+			oldHeaps[k] = v
+		}
 		s.applyHavoc(ms)
+		s.keepUntouchedLocals(li, oldHeaps)
 		if spec != nil {
 			for _, g := range spec.ghosts {
 				stepped := false
@@ -778,6 +783,70 @@ type modSet struct {
 	all   bool
 	heaps map[string]bool // heap base names, havocked entirely
 	cells map[ssa.Value]types.Type
+}
+
+// keepUntouchedLocals: havoc is by heap (element type or field), which also wipes the storage of
+// local variables that live in those heaps (a local array, a local struct). A local whose address
+// is never taken explicitly (ssa: not Heap) can only change through stores that name it; if the
+// loop has none, its contents are the same after the havoc.
+func (s *state) keepUntouchedLocals(li *loopInfo, oldHeaps map[string]string) {
+	fn := li.header.Parent()
+	for _, a := range fn.Locals {
+		if a.Heap {
+			continue
+		}
+		pv, ok := s.vals[a]
+		if !ok || len(pv.S) < 1 {
+			continue
+		}
+		if _, lit := intLit(pv.S[0]); !lit {
+			continue
+		}
+		written := false
+		for b := range li.blocks {
+			for _, in := range b.Instrs {
+				switch d := in.(type) {
+				case *ssa.Store:
+					if rootAlloc(d.Addr) == a {
+						written = true
+					}
+				case ssa.CallInstruction:
+					for _, arg := range d.Common().Args {
+						if rootAlloc(arg) == a {
+							written = true
+						}
+					}
+				}
+			}
+		}
+		if written {
+			continue
+		}
+		for name, nw := range s.heaps {
+			if od, ok := oldHeaps[name]; ok && od != nw && name != "M" && !strings.HasPrefix(name, "G_") {
+				s.pc = append(s.pc, fmt.Sprintf("(= (select %s %s) (select %s %s))", nw, pv.S[0], od, pv.S[0]))
+			}
+		}
+	}
+}
+
+// rootAlloc: the local variable an address is derived from by field / index selection
+func rootAlloc(v ssa.Value) *ssa.Alloc {
+	for i := 0; i < 16; i++ {
+		switch d := v.(type) {
+		case *ssa.Alloc:
+			return d
+		case *ssa.IndexAddr:
+			v = d.X
+		case *ssa.FieldAddr:
+			v = d.X
+		case *ssa.Slice:
+			v = d.X
+		default:
+			return nil
+		}
+	}
+	return nil
 }
 
 func (s *state) applyHavoc(ms *modSet) {
